@@ -19,7 +19,7 @@ from . import mux as M
 
 ENGINE_ID = 21
 RAW_COMPARE = True
-N = {"quick": 150, "thorough": 2000}
+N = {"quick": 300, "thorough": 2000}
 RULE = ("layouts: 40 % the mux engine's random layouts (natural / packed / unaligned / padded, shadow_overlaps in "
         "{None,0,1,2,3}), 60 % word-oriented hand-built maps (several one-chunk registers per Wishbone word sharing one "
         "shadow chunk, multi-chunk registers inside one word, non-power-of-two sized unaligned registers that wrap in "
@@ -96,11 +96,14 @@ def layout_words(rnd, tier):
     regs = []
     cur = 0
     limit = 14 if tier == "quick" else 20
+    # only one-address registers (e.g. four 8-bit registers behind a 32-bit bridge): the shadows have ONE chunk,
+    # which every register shares, and consecutive granules of a transfer hit different registers' Cases of it
+    pure = style == "narrow" and rnd.random() < 0.7
     while cur < top and len(regs) < limit:
         room = top - cur
         inword = ratio - (cur % ratio)
         if style == "narrow":
-            size = 1 if rnd.random() < 0.9 else rnd.randint(1, min(2, room))
+            size = 1 if pure or rnd.random() < 0.85 else rnd.randint(1, min(2, room))
         elif style == "multi":
             size = rnd.randint(1, max(1, min(inword, room)))      # stays inside its word
         elif style == "np2":
@@ -111,7 +114,7 @@ def layout_words(rnd, tier):
             size = rnd.choice([ratio + 1, 2 * ratio, ratio + ratio // 2 + 1, inword + 1, 2, 1, 3])
         else:
             size = rnd.choice([1, 1, 2, 3, 4, rnd.randint(1, 2 * ratio)])
-        if rnd.random() < (0.12 if style != "narrow" else 0.04):
+        if rnd.random() < (0.12 if style != "narrow" else 0.0 if pure else 0.04):
             cur += rnd.randint(1, 3)                               # hole
         if cur + size > top:
             size = top - cur
@@ -125,6 +128,8 @@ def layout_words(rnd, tier):
     if not regs:
         regs.append([0, 1, cdw, 1, 1])
     ov = rnd.choice([None, None, None, 0, 1, 2, 3])
+    if pure and rnd.random() < 0.75:
+        ov = None                                                  # any number of registers may share the chunk
     return {"cdw": cdw, "wdw": cdw << r, "caw": caw, "regs": regs, "ov": ov}
 
 
@@ -255,7 +260,7 @@ def gen_case(seed, tier, idx):
         return {"engine": "bridgemux", "kind": "ctor", "cfg": cfg, "stim": stim}
     cfg = layout_from_mux(rnd, tier) if rnd.random() < 0.4 else layout_words(rnd, tier)
     g = geometry(cfg)
-    T = rnd.choice([160, 220]) if tier == "quick" else rnd.choice([300, 500])
+    T = rnd.choice([200, 300]) if tier == "quick" else rnd.choice([300, 500])
     stim = gen_proto(rnd, g, cfg, T) if kind == "proto" else gen_free(rnd, g, cfg, T, kind)
     case = {"engine": "bridgemux", "kind": kind, "cfg": cfg, "stim": stim}
     # resets from a random stream of their own (bridge engine's placement rules)
@@ -429,7 +434,10 @@ def oracle(case, obs):
        the word with all granules selected gets r_stb exactly once in [t0, t0+ratio-1], and in the acknowledge
        cycle the dat_r lanes of its granules are the chunks of the ONE value it presented in the cycle of that
        r_stb; a register whose first address is not a selected granule gets none; no element strobe of any
-       register in any cycle outside these windows (idle cycles, acknowledge cycle, the cycles after it)."""
+       register in any cycle outside these windows (idle cycles, acknowledge cycle, the cycles after it);
+    4. a register spanning several words, accessed whole by consecutive transfers to its words in ascending order
+       (each selecting all its granules): one w_stb, in the last transfer before its acknowledge, w_data = all
+       its dat_w lanes; one r_stb, in the first transfer, all dat_r lanes from the value presented then."""
     cfg = case["cfg"]
     g = geometry(cfg)
     if obs and obs[0] == -2:
@@ -543,6 +551,90 @@ def oracle(case, obs):
                                                        f"{v:#x} it presented with its r_stb (cycle {hits[0]}) is {want:#x}"))
         if len(out) > 12:
             return out
+    # ---- 4: whole-register sweeps over registers spanning several words ----
+    out += oracle_sweeps(case, obs, g, T)
+    return out
+
+
+def sweeps(case, g, T=None):
+    """Whole-register accesses to registers SPANNING several Wishbone words: for register k over words wa..wb,
+    wb-wa+1 consecutive acknowledged protocol-abiding transfers of one segment (nothing but idle cycles between
+    them), all reads or all writes, to words wa, wa+1, .., wb in this order, each selecting every granule of
+    the register in its word.  Yields (k, [t0 of each transfer])."""
+    r, ratio, wb_aw, wdw = g
+    stim = case["stim"]
+    T = len(stim) if T is None else T
+    xfs, spans = checked_transfers(case, g)
+    regs = case["cfg"]["regs"]
+    for k, (s, e, w, rd, wr) in enumerate(regs):
+        wa, wb = s // ratio, (e - 1) // ratio
+        if wa == wb or wb >= (1 << wb_aw):
+            continue
+        n = wb - wa + 1
+        for i in range(len(xfs) - n + 1):
+            seq = xfs[i:i + n]
+            b = seq[0][1]
+            if any(q[1] != b or q[0] + ratio + 1 > b or q[0] + ratio + 1 >= T for q in seq):
+                continue
+            x0 = stim[seq[0][0]]
+            ok = True
+            for j, (t0, _b) in enumerate(seq):
+                x = stim[t0]
+                if x[2] != x0[2] or x[3] != wa + j or not reg_view(case["cfg"], g, x[3], x[4])[k][2]:
+                    ok = False
+                    break
+                base = x[3] * ratio
+                if any(not (x[4] >> (a - base)) & 1 for a in range(max(s, base), min(e, base + ratio))):
+                    ok = False
+                    break
+            if ok and (wr if x0[2] else rd):
+                yield k, [q[0] for q in seq]
+
+
+def oracle_sweeps(case, obs, g, T):
+    """Registers spanning words, accessed whole by an ascending sweep: one w_stb, in the last transfer (before its
+    acknowledge), with w_data = all its dat_w lanes of all the transfers; one r_stb, in the first transfer, and
+    every transfer's dat_r lanes are chunks of the one value presented then."""
+    r, ratio, wb_aw, wdw = g
+    cfg = case["cfg"]; cdw = cfg["cdw"]; gm = (1 << cdw) - 1
+    stim = case["stim"]; rows = obs[2]
+    out = []
+    for k, ts in sweeps(case, g, T):
+        s, e, w, rd, wr = cfg["regs"][k]
+        we = stim[ts[0]][2]
+        what = (f"{'write' if we else 'read'} sweep over register {k} [{s},{e}) width {w}: transfers at {ts} to words "
+                f"{[stim[t][3] for t in ts]}, sel {[hex(stim[t][4]) for t in ts]}")
+        if we:
+            hits = [t for t0 in ts for t in range(t0 + 1, t0 + ratio + 1) if rows[t][4][k]]
+            if len(hits) != 1 or hits[0] <= ts[-1]:
+                out.append(("C10", ts[-1] + ratio, f"{what}: w_stb in cycles {hits}, required exactly once, in the last transfer "
+                                                   f"before its acknowledge (cycle {ts[-1] + ratio + 1})"))
+                continue
+            exp = 0
+            for j in range(e - s):
+                cw = min(cdw, w - j * cdw)
+                if cw > 0:
+                    a = s + j
+                    lane = (stim[ts[a // ratio - s // ratio]][5] >> ((a % ratio) * cdw)) & gm
+                    exp |= (lane & ((1 << cw) - 1)) << (j * cdw)
+            if rows[hits[0]][5][k] != exp:
+                out.append(("C10", hits[0], f"{what}: w_data={rows[hits[0]][5][k]:#x} with w_stb, the dat_w lanes addressed to it give {exp:#x}"))
+        else:
+            hits = [t for t0 in ts for t in range(t0, t0 + ratio) if rows[t][3][k]]
+            if len(hits) != 1 or hits[0] >= ts[0] + ratio:
+                out.append(("C10", ts[0] + ratio, f"{what}: r_stb in cycles {hits}, required exactly once, in the first transfer"))
+                continue
+            v = stim[hits[0]][6][k] & ((1 << w) - 1)
+            for j in range(e - s):
+                a = s + j
+                t0 = ts[a // ratio - s // ratio]
+                got = (rows[t0 + ratio + 1][1] >> ((a % ratio) * cdw)) & gm
+                want = (v >> (j * cdw)) & gm
+                if got != want:
+                    out.append(("C10", t0 + ratio + 1, f"{what}: lane {a % ratio} of dat_r is {got:#x}, chunk {j} of the value {v:#x} "
+                                                       f"it presented with its r_stb (cycle {hits[0]}) is {want:#x}"))
+        if len(out) > 6:
+            break
     return out
 
 
@@ -595,6 +687,9 @@ def stats(case, obs):
     d["registers_non_power_of_two_unaligned"] = sum(
         1 for (s, e, *_x) in regs if (e - s) & (e - s - 1) and s % (1 << M.ceil_log2(e - s)))
     d["one_chunk_registers"] = sum(1 for (s, e, *_x) in regs if e - s == 1)
+    sw = list(sweeps(case, g, len(obs[2])))
+    d["spanning_register_sweeps_checked_write"] = sum(1 for k, ts in sw if case["stim"][ts[0]][2])
+    d["spanning_register_sweeps_checked_read"] = sum(1 for k, ts in sw if not case["stim"][ts[0]][2])
     rs = _reset_cycles(case)
     if rs:
         d["cases_with_resets"] = 1
